@@ -146,7 +146,7 @@ def spec_consts(var):
 def check(ctx):
     m1 = Mode1(ctx, "MC_Ann")
     m1.holds("refresh 2, TTL 6", "C14_quick.cfg", None if ctx.quick else {"MaxEv = 4": "MaxEv = 6"}, timeout=3000)
-    m1.holds("infinite TTL, no refresh", "C14_quick.cfg", {"C14_A": "C14_B"})
+    m1.holds("infinite TTL, no refresh", "C14_quick.cfg", dict({"C14_A": "C14_B"}, **({} if ctx.quick else {"MaxEv = 4": "MaxEv = 6"})), timeout=3000)
     m1.caught("SwSubOrder", "C14_quick.cfg")
     traces = traces_for(ctx.seed, ctx.pick(900, 9000), ctx.pick(10, 16))
     bad, ms = judge(ctx, "Mon_C14", traces + scale_traces(), "subscriber histories", payload)
